@@ -261,12 +261,13 @@ func (f *MemFile) ReadAt(b []byte, off int64) (n int, err error) {
 		return 0, &fs.PathError{Op: "readat", Path: f.name, Err: avfs.ErrNegativeOffset}
 	}
 
-	if f.nd == nil {
-		return 0, &fs.PathError{Op: op, Path: f.name, Err: fs.ErrClosed}
+	if len(b) == 0 {
+		// nothing to read : os.File.ReadAt does not even look at the file.
+		return 0, nil
 	}
 
-	if len(b) == 0 {
-		return 0, nil
+	if f.nd == nil {
+		return 0, &fs.PathError{Op: op, Path: f.name, Err: fs.ErrClosed}
 	}
 
 	nd, ok := f.nd.(*fileNode)
@@ -645,11 +646,6 @@ func (f *MemFile) Write(b []byte) (n int, err error) {
 		return 0, &fs.PathError{Op: op, Path: f.name, Err: fs.ErrClosed}
 	}
 
-	if len(b) == 0 {
-		// a zero length write returns at once and does not move the offset (see os.File).
-		return 0, nil
-	}
-
 	nd, ok := f.nd.(*fileNode)
 	if !ok {
 		err = avfs.ErrBadFileDesc
@@ -671,7 +667,7 @@ func (f *MemFile) Write(b []byte) (n int, err error) {
 
 	nd.mu.Lock()
 
-	if f.openMode&avfs.OpenAppend != 0 {
+	if f.openMode&avfs.OpenAppend != 0 && len(b) > 0 {
 		// every write of a file opened with O_APPEND lands at the current end of the file.
 		f.at = int64(len(nd.data))
 	}
